@@ -90,7 +90,13 @@ impl Unit {
                 if ex.opt("async").as_deref() == Some("yes") { u.eager.insert(name); }
             }
         }
-        Ok(u)
+        // built-in path rules (every unit): std helpers whose model lives in prelude/world.rs; a unit's own rule for the same path wins
+    for (a, b) in [("std::any::type_name", "hx_type_name"), ("any::type_name", "hx_type_name"), ("type_name", "hx_type_name"), ("core::any::type_name", "hx_type_name"),
+                   ("Arc::strong_count", "hx_arc_count"), ("Arc::weak_count", "hx_arc_count"), ("std::sync::Arc::strong_count", "hx_arc_count"), ("std::sync::Arc::weak_count", "hx_arc_count"), ("Weak::strong_count", "hx_arc_count"), ("Weak::weak_count", "hx_arc_count"),
+                   ("std::future::ready", "hx_ready"), ("future::ready", "hx_ready"), ("futures::future::ready", "hx_ready"), ("core::future::ready", "hx_ready")] {
+        if !u.paths.iter().any(|(x, _)| x == a) { u.paths.push((a.to_string(), b.to_string())); }
+    }
+    Ok(u)
     }
     pub fn map_bound(&self, s: &str) -> Option<TokenStream> {
         let k = nospace(s);
